@@ -988,10 +988,30 @@ func (r *vcbRun) runCase() {
 			undes = append(undes, h)
 		case "des":
 			paths := make([]*NodePath, 0, len(hs.Paths))
-			for _, p := range hs.Paths {
+			repeated := false
+			for i, p := range hs.Paths {
 				paths = append(paths, NewNodePath(p...))
+				for _, q := range hs.Paths[:i] {
+					if strings.Join(p, "/") == strings.Join(q, "/") {
+						repeated = true
+					}
+				}
 			}
-			opts = append(opts, WithCallbacks(h).DesignateNodeWithPath(paths...))
+			if repeated {
+				// a list that names a node more than once arises from accumulating designations: one call per entry, a
+				// single-element path by DesignateNode, the others by DesignateNodeWithPath
+				o := WithCallbacks(h)
+				for i, p := range hs.Paths {
+					if len(p) == 1 && i == 0 {
+						o = o.DesignateNode(p[0])
+					} else {
+						o = o.DesignateNodeWithPath(NewNodePath(p...))
+					}
+				}
+				opts = append(opts, o)
+			} else {
+				opts = append(opts, WithCallbacks(h).DesignateNodeWithPath(paths...))
+			}
 		}
 	}
 	// undesignated handlers split over several WithCallbacks options, in front of the designated ones
